@@ -1061,7 +1061,7 @@ func ruleC07(w *World) {
 		w.undecided("C07.R2", "anchor:checkComplaint", token.NoPos, "unresolved anchor")
 	} else {
 		allowed := map[string][]string{
-			"receiveVerifVector":     {"origin == ", "sharesTimeout == false", "vAReceived == false", "len(data)", "readVerifVector(", "next(range(", ".received == true", ".answerReceived == true", "== len(data)"},
+			"receiveVerifVector":     {"origin == ", "sharesTimeout == false", "vAReceived == false", "len(data)", "readVerifVector(", "))#0 == true", ".received == true", ".answerReceived == true", "== len(data)"},
 			"receiveComplaint":       {"complaintsTimeout == false", "len(data)", " < ", "origin != ", "!= origin", "complainee == ", "== complainee", "[origin]#1 == true", ".received == false", "vAReceived == true", ".answerReceived == true", "myIndex != ", "!= s.feldmanVSSstate.dkgCommon.myIndex", "dealerIndex"},
 			"receiveComplaintAnswer": {"origin == ", "== origin", "len(data)", " < ", "#1 == true", ".answerReceived == false", ".received == true", "readScalarFrStar(", "vAReceived == true"},
 		}
